@@ -5,7 +5,7 @@
    [reachable pj w]: w is the state after some history of well-formed commands starting
    from an empty build directory.  [get_value_for] is what get_option() returns. *)
 From MV Require Import Base.Strs Options.Kinds Options.Lifecycle Options.LcFacts
-  Options.LifecycleProofs Options.LcWitness.
+  Options.LifecycleProofs Options.LcWitness Options.LcHistory.
 
 (* ---- "Across any sequence of setup, configure -D, configure -U, setup --reconfigure,
    setup --wipe and edits of the option file ...": the invariant of ALL histories *)
@@ -112,6 +112,7 @@ Theorem C08_dropping_an_override_inherits : forall fs b args b' c k,
   wf_dir b -> cd b = Some c -> seen c = fs ->
   NoDup (map fst args) -> Forall cli_key (map fst args) ->
   configure fs b args = (b', Done) -> In (k, None) args ->
+  dmem (augments (cstore c)) k || dmem (options (cstore c)) k = true ->
   exists c', cd b' = Some c' /\
     dget (augments (cstore c')) k = None /\
     (dget (augments (cstore c)) k <> None ->
@@ -172,24 +173,32 @@ Theorem C08_first_configuration_option_set : forall pj fs b d b' c',
 Proof. exact first_configure_option_set. Qed.
 Print Assumptions C08_first_configuration_option_set.
 
-(* "a removed one vanishes" fails at command level when the removed option is still
-   recorded in cmd_line.txt: known finding (witness) and the guard under which a
-   reconfigure that was asked nothing succeeds *)
-Theorem C08_reconfigure_after_removal_refuted : exists pj w,
-  reachable pj w /\ cd (wdir w) <> None /\ reconfigure_late pj (wfiles w) (wdir w) [] = false /\
-  snd (step pj w (Reconfigure [])) = Failed.
-Proof.
-  exists pj0, w2. split; [exact reach_w2|]. destruct removed_option_witness as [A [B [C _]]]. auto.
-Qed.
-Print Assumptions C08_reconfigure_after_removal_refuted.
+(* ... and over ALL histories: in every reachable build directory the stored options are
+   exactly the global options plus the options declared by the two option files as
+   coredata.dat last loaded them *)
+Theorem C08_every_reachable_directory_holds_the_declared_options : forall pj w c,
+  reachable pj w -> cd (wdir w) = Some c -> options_match (cstore c) (seen c).
+Proof. intros pj w c R C. exact (reachable_options_match pj w R c C). Qed.
+Print Assumptions C08_every_reachable_directory_holds_the_declared_options.
 
-Theorem C08_reconfigure_after_removal_partial : forall pj fs b c c2,
+(* "a removed one vanishes" at command level, also when the removed option is still recorded
+   in cmd_line.txt: a reconfigure that is asked nothing succeeds whenever the build files
+   evaluate (whatever is recorded), and -U of a recorded key that is no option any more drops
+   the record and nothing else *)
+Theorem C08_reconfigure_ignores_stale_records : forall pj fs b c c2,
   cd b = Some c ->
   run_build pj fs false (cstore c) (cl_or_empty b) = Ok (c2, false) ->
-  check_unused (cstore c2) (cl_or_empty b) = true ->
   reconfigure pj fs b [] = (mkB (Some c2) (Some (cl_or_empty b)) (Some (cstore c2)), Done).
-Proof. exact reconfigure_empty_succeeds_partial. Qed.
-Print Assumptions C08_reconfigure_after_removal_partial.
+Proof. exact reconfigure_empty_succeeds. Qed.
+Print Assumptions C08_reconfigure_ignores_stale_records.
+
+Theorem C08_drop_stale_record : forall fs b c k,
+  cd b = Some c -> seen c = fs ->
+  dmem (augments (cstore c)) k = false -> dmem (options (cstore c)) k = false ->
+  dmem (cl_or_empty b) k = true ->
+  configure fs b [(k, None)] = (mkB (cd b) (Some (dpop (cl_or_empty b) k)) (intro b), Done).
+Proof. exact configure_drop_stale_record. Qed.
+Print Assumptions C08_drop_stale_record.
 
 (* ---- "--wipe re-derives the configuration from the recorded command lines plus current
    defaults": the result is a function of cmd_line.txt, the given options, the current
@@ -207,11 +216,37 @@ Print Assumptions C08_wipe_is_a_first_setup_with_the_record.
 
 Theorem C08_first_configuration_records : forall pj fs b d b',
   first_configure pj fs b d = (b', Done) ->
-  cl b' = Some (dupdate (cl_or_empty b) d) /\
+  cl b' = Some (strip_vals (dupdate (cl_or_empty b) d)) /\
   exists c, cd b' = Some c /\ intro b' = Some (cstore c) /\ seen c = fs /\
     run_build pj fs true init_store (dupdate (cl_or_empty b) d) = Ok (c, false).
 Proof. exact first_configure_record. Qed.
 Print Assumptions C08_first_configuration_records.
+
+(* known finding: the record does not preserve blanks at the ends of a value (cmd_line.txt is
+   read back through configparser), so --wipe configures the stripped value *)
+Theorem C08_record_is_faithful_refuted : exists pj w k v v',
+  reachable pj w /\ eff w k = Ok v /\ snd (step pj w (Wipe [])) = Done /\
+  eff (fst (step pj w (Wipe []))) k = Ok v' /\ v <> v' /\ cl (wdir w) <> None.
+Proof.
+  exists pj0, w4, kSroot, (PStr (s2l " x")), (PStr (s2l "x")).
+  destruct blank_value_witness as [A [B [C D]]]. split.
+  - exists fsA, hist4. split; [apply wf_fsA|]. split; [repeat constructor | reflexivity].
+  - repeat split; try assumption; [discriminate | rewrite B; discriminate].
+Qed.
+Print Assumptions C08_record_is_faithful_refuted.
+
+(* ... and is exact otherwise: a successful configure records -D (stripped) and deletes -U, a
+   first configuration / --wipe records old record + given options (C08_configure_records_the_
+   command_line, C08_first_configuration_records); strip is the identity on values without
+   blanks at the ends *)
+Theorem C08_record_is_faithful_partial : forall fs b k v b',
+  strip v = v -> configure fs b [(k, Some v)] = (b', Done) ->
+  cl b' = Some (dset (cl_or_empty b) k v).
+Proof.
+  intros fs b k v b' S H. rewrite (configure_records fs b [(k, Some v)] b'); [|discriminate|exact H].
+  cbn. rewrite S. reflexivity.
+Qed.
+Print Assumptions C08_record_is_faithful_partial.
 
 (* the corner the source's own TODO names: -U of a subproject option that does not yield
    keeps its value but deletes the record, so a later --wipe returns it to the default *)
